@@ -582,6 +582,9 @@ func genC09(rng *rand.Rand, n int, emit func(Case), dist map[string]int) {
 				var sb strings.Builder
 				sb.WriteString("<doc>")
 				for _, k := range keysOfAny(obj) {
+					if lk := strings.ToLower(k); lk == "list" || lk == "tags" || lk == "ptags" || lk == "nums" {
+						continue // encoding/xml APPENDS to a slice that already holds values: what the body contributes would depend on the earlier sources
+					}
 					if s, isStr := obj[k].(string); isStr && !strings.ContainsAny(k, ".-") {
 						fmt.Fprintf(&sb, "<%s>%s</%s>", k, s, k)
 					} else if n, isInt := obj[k].(int); isInt {
@@ -613,6 +616,10 @@ func genC09(rng *rand.Rand, n int, emit func(Case), dist map[string]int) {
 			req = httptest.NewRequest(method, target, bytes.NewReader(raw))
 			req.Header.Set(echo.HeaderContentType, ctype)
 			form = nil
+			e.JSONSerializer = echo.DefaultJSONSerializer{}
+			if rng.Intn(2) == 0 {
+				e.JSONSerializer = c09Serializer{} // an application-supplied serializer that returns the decoder's plain errors
+			}
 			if derr != nil {
 				bodySx, oracleErr = L(I(5)), true
 			} else {
@@ -768,4 +775,14 @@ func genC09(rng *rand.Rand, n int, emit func(Case), dist map[string]int) {
 		dist[fmt.Sprintf("status_%d", status)]++
 		emit(cs)
 	}
+}
+
+// c09Serializer is a custom JSON serializer: it hands back encoding/json's own errors, not HTTP errors.
+type c09Serializer struct{}
+
+func (c09Serializer) Serialize(c echo.Context, i interface{}, indent string) error {
+	return json.NewEncoder(c.Response()).Encode(i)
+}
+func (c09Serializer) Deserialize(c echo.Context, i interface{}) error {
+	return json.NewDecoder(c.Request().Body).Decode(i)
 }
